@@ -260,6 +260,10 @@ def strict_parse(text, allow_no_group=False):
             elif ln == 'break':
                 if not in_loop:
                     raise Bad("break outside repeat")
+                if what == 'repeat':
+                    # a break directly in a repeat body is not at the end of
+                    # a branch: it would make the loop's tail unreachable
+                    raise Bad("break directly in a repeat body")
                 out.append(('break',))
                 pos += 1
             elif ln == 'repeat':
